@@ -25,7 +25,7 @@ pub fn nesting(s: &str) -> usize {
 /// which libFuzzer records as a crash with the input.
 pub fn on_big_stack<F: FnOnce() + Send>(f: F) {
     std::thread::scope(|s| {
-        let h = std::thread::Builder::new().stack_size(512 << 20).spawn_scoped(s, f).expect("spawn");
+        let h = std::thread::Builder::new().stack_size(128 << 20).spawn_scoped(s, f).expect("spawn");
         if h.join().is_err() {
             std::process::abort();
         }
